@@ -377,54 +377,62 @@ Definition rect_union_opt (a : option rect) (b : option rect) : option rect :=
 
 Definition comp_gid (c : dcomp) : N := fst (fst c).
 
-(* bbox_of_composite; fuel bounds the nesting depth (the Rust recursion has no bound: a cycle
-   overflows the stack, C15).  None: fuel exhausted or a glyph id out of range. *)
+(* bbox_of_composite.  The loop over the components, with the recursive call for a nested
+   composite passed in ([recb]); fuel bounds the nesting depth (the Rust recursion has no bound:
+   a cycle overflows the stack, C15).  None: fuel exhausted or a glyph id out of range. *)
+Fixpoint bbox_go (recb : aff -> list dcomp -> option (option rect)) (gl : list dbody) (a : aff)
+                 (cs : list dcomp) (acc : option rect) : option (option rect) :=
+  match cs with
+  | [] => Some acc
+  | c :: t =>
+    let a' := aff_mul a (aff_of c) in
+    match nth_error gl (N.to_nat (comp_gid c)) with
+    | None => None
+    | Some DEmpty => bbox_go recb gl a t acc
+    | Some (DSimple _ _ pts) =>
+      bbox_go recb gl a t (fold_left (fun r p => rect_union_pt r (aff_apply a' (qpt p))) pts acc)
+    | Some (DComposite _ comps') =>
+      match recb a' comps' with
+      | None => None
+      | Some child => bbox_go recb gl a t (rect_union_opt acc child)
+      end
+    end
+  end.
+
 Fixpoint bbox_comp (fuel : nat) (gl : list dbody) (a : aff) (comps : list dcomp) (acc : option rect)
   : option (option rect) :=
   match fuel with
   | O => None
-  | S f =>
-    (fix go (cs : list dcomp) (acc : option rect) : option (option rect) :=
-       match cs with
-       | [] => Some acc
-       | c :: t =>
-         let a' := aff_mul a (aff_of c) in
-         match nth_error gl (N.to_nat (comp_gid c)) with
-         | None => None
-         | Some DEmpty => go t acc
-         | Some (DSimple _ _ pts) =>
-           go t (fold_left (fun r p => rect_union_pt r (aff_apply a' (qpt p))) pts acc)
-         | Some (DComposite _ comps') =>
-           match bbox_comp f gl a' comps' None with
-           | None => None
-           | Some child => go t (rect_union_opt acc child)
-           end
-         end
-       end) comps acc
+  | S f => bbox_go (fun a' c' => bbox_comp f gl a' c' None) gl a comps acc
   end.
 
 (* the resolved outline: every point of every leaf, transformed *)
+Fixpoint resolve_go (recr : aff -> list dcomp -> option (list (Q * Q))) (gl : list dbody) (a : aff)
+                    (cs : list dcomp) : option (list (Q * Q)) :=
+  match cs with
+  | [] => Some []
+  | c :: t =>
+    let a' := aff_mul a (aff_of c) in
+    match nth_error gl (N.to_nat (comp_gid c)) with
+    | None => None
+    | Some DEmpty => resolve_go recr gl a t
+    | Some (DSimple _ _ pts) =>
+      match resolve_go recr gl a t with
+      | None => None
+      | Some r => Some (map (fun p => aff_apply a' (qpt p)) pts ++ r)
+      end
+    | Some (DComposite _ comps') =>
+      match recr a' comps', resolve_go recr gl a t with
+      | Some x, Some r => Some (x ++ r)
+      | _, _ => None
+      end
+    end
+  end.
+
 Fixpoint resolve (fuel : nat) (gl : list dbody) (a : aff) (comps : list dcomp) : option (list (Q * Q)) :=
   match fuel with
   | O => None
-  | S f =>
-    (fix go (cs : list dcomp) : option (list (Q * Q)) :=
-       match cs with
-       | [] => Some []
-       | c :: t =>
-         let a' := aff_mul a (aff_of c) in
-         match nth_error gl (N.to_nat (comp_gid c)) with
-         | None => None
-         | Some DEmpty => go t
-         | Some (DSimple _ _ pts) =>
-           match go t with None => None | Some r => Some (map (fun p => aff_apply a' (qpt p)) pts ++ r) end
-         | Some (DComposite _ comps') =>
-           match resolve f gl a' comps', go t with
-           | Some x, Some r => Some (x ++ r)
-           | _, _ => None
-           end
-         end
-       end) comps
+  | S f => resolve_go (fun a' c' => resolve f gl a' c') gl a comps
   end.
 
 (* write-fonts OtRound for f64 -> i16: floor(x + 1/2) (saturation is C19's subject) *)
@@ -574,13 +582,6 @@ Definition range_bit (tbl : list (N * N * N)) (cp : N) : option N :=
   | None => None
   end.
 
-(* the specification: the first (= only) range that contains the code point *)
-Definition range_bit_linear (tbl : list (N * N * N)) (cp : N) : option N :=
-  match find (fun r => (fst (fst r) <=? cp) && (cp <=? snd (fst r))) tbl with
-  | Some (_, _, bit) => Some bit
-  | None => None
-  end.
-
 Definition unicode_bits_of (cp : N) : list N :=
   (match range_bit unicode_ranges cp with Some b => [b] | None => [] end)
   ++ (if (0x10000 <=? cp) && (cp <=? 0x10FFFF) then [57] else []).
@@ -703,6 +704,7 @@ Definition quad_eqb (a b : Z * Z * Z * Z) : bool := bbox_eqb a b.
 
 Definition check_hmetrics (f : dfont) : bool :=
   let m := mb_run (map h_input (f_glyphs f)) in
+  forallb (fun g => 0 <=? dg_adv g) (f_glyphs f) &&
   match hmtx_expand (m_long m) (m_sbs m) with
   | Some e => list_eqb' pairZ_eqb e (map (fun g => (dg_adv g, dg_lsb g)) (f_glyphs f))
   | None => false
@@ -725,11 +727,19 @@ Definition check_vmetrics (f : dfont) : bool :=
 
 Definition font_glyphs (f : dfont) : list glyph := map (fun g => to_glyph (dg_body g)) (f_glyphs f).
 
+(* the glyf format cannot hold more: endPtsOfContours and numberOfContours are 16-bit *)
+Definition simple_fits_b (gl : list glyph) : bool :=
+  forallb (fun g => match g with
+                    | GSimple cs _ => (sumN cs <? 65536)%N && (lenN cs <? 65536)%N
+                    | _ => true
+                    end) gl.
+
 Definition check_limits (f : dfont) : bool :=
   let gl := font_glyphs f in
   let '(p, c, cp, cc, el, d) := f_maxp f in
   match limits_run Ideal gl (composite_ids 0 gl) with
   | LOk o =>
+    simple_fits_b gl &&
     (lo_pts o =? p)%N && (lo_ctr o =? c)%N && (lo_cpts o =? cp)%N && (lo_cctr o =? cc)%N
     && (lo_elems o =? el)%N && (lo_depth o =? d)%N
     && bbox_eqb (f_head_bbox f) (match lo_bbox o with Some b => b | None => (0, 0, 0, 0) end)
